@@ -345,6 +345,18 @@ def check(tier: str, seed: int, t0: float, build: core.BuildStatus) -> int:
             rejected.append({"backend": backend, "query": src, "rejected": bad_verdicts, "has_failing_input": bool(real)})
         for i, kind, text, job, ref in real[:1]:
             key = violation_key(src, kind, ref)
+            if kind == "spurious-fault" and "first_of_first" in feat and src.count(".First()") >= 2:
+                # the outer First does not stop the loop (known finding first-keeps-filtering): the BODY before it - here an inner
+                # First - is evaluated on the later elements too and fails where one of them is undefined.  That is the known class
+                # exactly when evaluating the body on EVERY element fails on this event; a fault on an event where every element's
+                # body is defined is something else
+                head, _, tail = src.rpartition(".First()")
+                try:
+                    eager = c04gen.reference_event(head + ".Count()" + tail, evs[i], uni)
+                except qgen.RefUnsupported:
+                    eager = None
+                if eager is not None and eager[0] == "fault":
+                    key = "c04:first-keeps-filtering"
             diff_hist[key] += 1
             oc.violations.append(core.Violation(
                 key,
